@@ -21,7 +21,7 @@ from ..report import Check
 from ..values import Msg, PyRaise
 from . import pipejob
 
-CAUSES = ("unsupported-term", "typed-literal-disabled-table", "short-tuple")
+CAUSES = ("unsupported-term", "typed-literal-disabled-table", "short-tuple", "interrupt-while-iterating-terms", "unsupported-term-after-known-terms")
 BAD = ("bad",)
 
 
@@ -55,10 +55,26 @@ def cases(arity: int, integ: str) -> list[dict]:
                 if si == 0:
                     continue
                 n_terms = si  # the tuple ends before this slot
+            elif cause == "interrupt-while-iterating-terms":
+                if si == 0:
+                    continue
+                n_terms = si  # the terms iterable raises KeyboardInterrupt when asked for this slot
+            elif cause == "unsupported-term-after-known-terms":
+                if si == 0:
+                    continue
+                # every term before the failing one is already known to the stream (lookup hits only: no new entries, but
+                # the last-used indices move) and differs from the previous statement's term in that slot
+                a_terms = C.base("a", arity)
+                b = [a_terms[(i + 1) % 3] for i in range(3)] + ([a_terms[3]] if arity == 4 else [])
+                b[si] = BAD
             # the statement after the failure repeats every term of b that was encoded before the failure
             c = [b[i] if i < si else C.base("c", arity)[i] for i in range(arity)]
             d = C.base("a", arity)
             out.append(dict(cause=cause, slot=slot, seq=[("ok", tuple(a)), ("bad", tuple(b[:n_terms])), ("ok", tuple(c)), ("ok", tuple(d))], preset=preset))
+            if cause == "unsupported-term-after-known-terms":
+                # afterwards: statements whose zero forms depend on the last-used name/prefix indices
+                e = [C.base("a", arity)[1], C.base("a", arity)[2], C.base("a", arity)[0]] + ([C.base("a", arity)[3]] if arity == 4 else [])
+                out[-1]["seq"] = [("ok", tuple(a)), ("bad", tuple(b[:n_terms])), ("ok", tuple(e)), ("ok", tuple(a))]
         if integ == "generic":
             # failure inside a quoted triple in the object position
             a = C.base("a", arity)
@@ -93,15 +109,26 @@ def run(prog, job: dict) -> dict:
 
         for expect, st in case["seq"]:
             terms = [_build(k, integ, t) for t in st]
+            payload: Any = tuple(terms)
+            if expect == "bad" and case["cause"] == "interrupt-while-iterating-terms":
+                from ..values import ExtObj as _E, GenObj as _G, PyRaise as _P
+
+                def _host(ts=terms):
+                    for t_ in ts:
+                        yield t_
+                    raise _P(_E("exc:KeyboardInterrupt", {"args": ()}), it.site)
+
+                payload = _G(_host(), "terms iterator interrupted")
             try:
                 if physical == 1:
-                    push(k.method(stream, "triple", tuple(terms)))
+                    push(k.method(stream, "triple", payload))
                 elif physical == 2:
-                    push(k.method(stream, "quad", tuple(terms)))
+                    push(k.method(stream, "quad", payload))
                 else:
                     # one graph per statement: graph(graph_id, [triple])
                     gid = terms[3] if len(terms) > 3 else None
-                    for fr in it.drain(k.method(stream, "graph", gid, k.generator([tuple(terms[:3])]))):
+                    inner = payload if not isinstance(payload, tuple) else tuple(terms[:3])
+                    for fr in it.drain(k.method(stream, "graph", gid, k.generator([inner]))):
                         push(fr)
                 log.append(("returned", expect))
                 if len(st) >= (4 if physical != 1 else 3) and BAD not in st:
